@@ -341,8 +341,8 @@ mod verif_slurm_w {
             let back = match k % 3 { 0 => serde_json::from_str::<SlurmFile>(text), 1 => SlurmFile::from_str(text), _ => SlurmFile::from_reader(text.as_bytes()) };
             match back {
                 Ok(b) => {
+                    if let Some(d) = differs(&b, &m) { panic!("serialising a file ({}) and parsing it back gives an equal file, field by field: {} in {}", how, d, text) }
                     assert!(b == file, "serialising a file ({}) and parsing it back gives an equal file: got {:?} from {}", how, b, text);
-                    if let Some(d) = differs(&b, &m) { panic!("serialising a file ({}) and parsing it back gives a file with the same fields: {} in {}", how, d, text) }
                 }
                 Err(e) => panic!("a serialised file ({}) parses back: {} for {}", how, e, text),
             }
